@@ -177,7 +177,7 @@ def req_of_oracle(line):
     m = re.search(r"input=(\S+)", line)
     if not m:
         return ""
-    if m.group(1).startswith("cid_"):
+    if m.group(1).startswith("cid_") or m.group(1).startswith("cch_"):
         return m.group(1).replace("_", " ")
     t = re.search(r"type=(\S+)", line)
     if t:
@@ -336,6 +336,13 @@ C05_SYS_RULE = ("sys scenario B (real broker, 2-4 real clients, real Sender / Re
                 "every item is allowed to send (the receiver's remaining capacity is positive and has been announced)")
 
 
+C05_CHAN_RULE = ("real Sender / Receiver of two real clients on a real broker vs. the composed model Model/ClientChan.lean: random schedules "
+                 "of send-if-ready / take / poll receiver_closed / poll send_ready with capacities 1..12, 16..35 and 100, the system at "
+                 "rest after every operation; every observation and the private fields `capacity` / `cur_capacity` at the end must agree; "
+                 "implementation-only oracle: items in order, nothing closed, never more outstanding than the capacity, a sender whose "
+                 "receiver has taken everything is ready")
+
+
 C10_SYS_RULE = ("sys scenario B (real broker, 2-4 real clients, several bus listeners per client with different filters, "
                 "started and stopped at random points): implementation-only oracle: whatever a listener yields matches one of the "
                 "filters it has ever been given (the broker sends a new event once per connection; the client library must match "
@@ -363,10 +370,14 @@ def broker_prop(pid, module):
         base["run"] = combine_runs(("", base["run"]),
                                    ("sys.", generic_run("sys", set(), {"C05"}, {"quick": (300, 4), "thorough": (3000, 14)},
                                                         canon=None, scenario_cmd="cnew", full_canon=lambda q, line: line,
-                                                        extra_args=["B"], rule=C05_SYS_RULE, subdir="-sys")))
+                                                        extra_args=["B"], rule=C05_SYS_RULE, subdir="-sys")),
+                                   ("chan.", generic_run("chan", {"cch"}, {"C05"}, {"quick": (1500, 4), "thorough": (40000, 14)},
+                                                         rule=C05_CHAN_RULE, subdir="-chan"), "cch "))
         base["trusted"] = list(base["trusted"]) + ["the client library's Sender / Receiver (aldrin/src/low_level/channel/established.rs: the sender's count "
                                                    "of announced capacity, the receiver's replenishment at the low-water mark) is not modelled; it is "
-                                                   "exercised by the channel rounds of sys scenario B only"]
+                                                   "exercised by the channel rounds of sys scenario B; their capacity bookkeeping is modelled in Model/ClientChan.lean "
+                                                   "(composed with the broker's Channel, the system at rest between operations: schedules in which an operation "
+                                                   "overtakes messages in flight are covered by sys only) and tied by the chan harness"]
         return base
     if pid == "C10":
         base = broker_prop("C10*", module)
